@@ -82,7 +82,23 @@ fn touch_all(list: &MorphemeList<Rc<JapaneseDictionary>>) -> (usize, bool, usize
     (n, tiles, at)
 }
 
-pub fn run_case(tr: &mut Trace, run: usize, world: &World, tok: &mut StatefulTokenizer<Rc<JapaneseDictionary>>, mode: Mode, recipe: &Value, extra: Value) {
+pub struct Sess {
+    pub tok: StatefulTokenizer<Rc<JapaneseDictionary>>,
+    /// the caller's reusable result list (what the Python binding and the CLI do): results are swapped in and out of it
+    pub list: MorphemeList<Rc<JapaneseDictionary>>,
+    pub uses: usize,
+}
+impl Sess {
+    pub fn new(w: &World) -> Sess {
+        Sess { tok: StatefulTokenizer::new(w.dict.clone(), Mode::C), list: MorphemeList::empty(w.dict.clone()), uses: 0 }
+    }
+}
+
+pub fn run_case(tr: &mut Trace, run: usize, world: &World, sess: &mut Sess, mode: Mode, recipe: &Value, extra: Value) {
+    sess.uses += 1;
+    // three analyses out of four swap their result into the caller's reusable list, one takes it out into fresh vectors
+    let reuse_list = extra.get("reuse").and_then(|r| r.as_bool()).unwrap_or(sess.uses % 4 != 1);
+    let Sess { tok, list: plist, .. } = sess;
     let text = build_text(recipe);
     let nbytes = text.len();
     tok.set_mode(mode);
@@ -92,7 +108,7 @@ pub fn run_case(tr: &mut Trace, run: usize, world: &World, tok: &mut StatefulTok
     }));
     let fallback = world.meta["has_fallback_oov"].as_bool().unwrap_or(false);
     let mut ev = json!({"ev": "tok", "run": run, "world": world.name, "mode": tok::mode_idx(mode), "fallback": fallback, "nbytes": nbytes,
-        "final": 0, "res": "", "touch": "none", "tiles": true, "covered": 0, "n": 0, "recipe": recipe, "extra": extra, "msg": "", "loc": ""});
+        "final": 0, "final_known": true, "reuse": reuse_list, "res": "", "touch": "none", "tiles": true, "covered": 0, "n": 0, "recipe": recipe, "extra": extra, "msg": "", "loc": ""});
     match res {
         Err(msg) => {
             ev["res"] = json!("panic");
@@ -110,6 +126,33 @@ pub fn run_case(tr: &mut Trace, run: usize, world: &World, tok: &mut StatefulTok
                 other => {
                     ev["res"] = json!("err");
                     ev["msg"] = json!(format!("{:?}", other));
+                }
+            }
+        }
+        Ok(Ok(())) if reuse_list => {
+            let r = catch(std::panic::AssertUnwindSafe(|| {
+                plist.collect_results(tok).map(|_| touch_all(plist))
+            }));
+            ev["final_known"] = json!(false);
+            match r {
+                Ok(Ok((n, tiles, at))) => {
+                    ev["res"] = json!("ok");
+                    ev["touch"] = json!("ok");
+                    ev["tiles"] = json!(tiles);
+                    ev["covered"] = json!(at);
+                    ev["n"] = json!(n);
+                }
+                Ok(Err(e)) => {
+                    ev["res"] = json!("err");
+                    ev["msg"] = json!(format!("collect_results: {:?}", e));
+                }
+                Err(msg) => {
+                    ev["res"] = json!("ok");
+                    ev["touch"] = json!("panic");
+                    ev["msg"] = json!(msg);
+                    ev["loc"] = json!(last_panic_location());
+                    *tok = StatefulTokenizer::new(world.dict.clone(), mode);
+                    *plist = MorphemeList::empty(world.dict.clone());
                 }
             }
         }
@@ -204,7 +247,7 @@ pub fn record(args: &[String]) -> i32 {
     let mut tr = Trace::create(out);
     let mut run = 0usize;
     let worlds = tok::fixture_worlds();
-    let mut toks: Vec<_> = worlds.iter().map(|w| StatefulTokenizer::new(w.dict.clone(), Mode::C)).collect();
+    let mut toks: Vec<Sess> = worlds.iter().map(Sess::new).collect();
 
     // 1. every hostile unit alone, doubled, between Japanese, in every world
     for (hi, h) in HOSTILE.iter().enumerate() {
@@ -213,6 +256,13 @@ pub fn record(args: &[String]) -> i32 {
                 run += 1;
                 run_case(&mut tr, run, w, &mut toks[wi], tok::mode_of(hi + wi + vi), &json!({"k": "cps", "cps": cps(t)}), json!({"part": "hostile"}));
             }
+        }
+    }
+    // 1b. inputs that are or become empty, right after non-empty analyses on the same tokenizer and list
+    for (wi, w) in worlds.iter().enumerate() {
+        for (k, t) in ["東京都に行った", "", "", "京都。", "", "東京", " ", "", "(あ)", "", "\u{0}", ""].iter().enumerate() {
+            run += 1;
+            run_case(&mut tr, run, w, &mut toks[wi], tok::mode_of(k), &json!({"k": "cps", "cps": cps(t)}), json!({"part": "empty"}));
         }
     }
     // 2. Unicode scalar sweep: alone and doubled (thorough: every scalar; quick: a stride plus all block edges)
@@ -258,7 +308,7 @@ pub fn record(args: &[String]) -> i32 {
     // 5. dictionaries at the cost extremes and random generated dictionaries, short and very long texts
     let ext = extreme_worlds();
     for w in ext.iter() {
-        let mut t = StatefulTokenizer::new(w.dict.clone(), Mode::C);
+        let mut t = Sess::new(w);
         for (u, n) in [("1", 10usize), ("1", 30000), ("1", 49149), ("あ", 16383), ("x", 49149), ("1あx", 7000), ("11", 24574)] {
             run += 1;
             run_case(&mut tr, run, w, &mut t, Mode::C, &rep(u, n, ""), json!({"part": "extreme"}));
@@ -266,7 +316,7 @@ pub fn record(args: &[String]) -> i32 {
     }
     let nrand = if thorough { 60 } else { 12 };
     for (w, d) in random_worlds(&mut rng, nrand).iter() {
-        let mut t = StatefulTokenizer::new(w.dict.clone(), Mode::C);
+        let mut t = Sess::new(w);
         for k in 0..6 {
             let unit = if k % 2 == 0 { d.words[rng.below(d.words.len())].key.clone() } else { crate::c02::gen_text(&mut rng, d, &gen::LETTERS, 6) };
             if unit.is_empty() { continue; }
@@ -287,7 +337,7 @@ pub fn replay(args: &[String]) -> i32 {
     let mut tr = Trace::create(&args[1]);
     let worlds = tok::fixture_worlds();
     let wis: Vec<usize> = worlds.iter().enumerate().filter(|(_, w)| w.name == "default" || w.name == "full").map(|(i, _)| i).collect();
-    let mut toks: Vec<_> = worlds.iter().map(|w| StatefulTokenizer::new(w.dict.clone(), Mode::C)).collect();
+    let mut toks: Vec<Sess> = worlds.iter().map(Sess::new).collect();
     let mut run = 0usize;
     let every = arg_u64(args, "--every", 1) as usize;
     for (li, v) in lines.iter().enumerate() {
@@ -305,22 +355,32 @@ pub fn replay(args: &[String]) -> i32 {
     0
 }
 
-/// `vh c03-single <out> '<event json>'`: re-run one recorded case (world + recipe) on the current code
+/// `vh c03-single <out> '<json array of events>'`: re-run recorded cases (world + mode + recipe + reuse) in order, one session per world
 pub fn single(args: &[String]) -> i32 {
     quiet_panics();
     let v: Value = serde_json::from_str(&args[1]).expect("event json");
+    let evs: Vec<Value> = if v.is_array() { v.as_array().unwrap().clone() } else { vec![v] };
     let mut tr = Trace::create(&args[0]);
-    let name = v["world"].as_str().unwrap();
     let mut all = tok::fixture_worlds();
     all.extend(extreme_worlds());
-    match all.iter().find(|w| w.name == name) {
-        Some(w) => {
-            let mut t = StatefulTokenizer::new(w.dict.clone(), Mode::C);
-            run_case(&mut tr, 1, w, &mut t, tok::mode_of(v["mode"].as_u64().unwrap_or(2) as usize), &v["recipe"], json!({"part": "single"}));
-        }
-        None => {
-            eprintln!("world {} is generated per seed; re-run c03-record with the recorded seed", name);
-            return 2;
+    let mut sess: Vec<Option<Sess>> = all.iter().map(|_| None).collect();
+    for (k, e) in evs.iter().enumerate() {
+        let name = e["world"].as_str().unwrap();
+        match all.iter().position(|w| w.name == name) {
+            Some(wi) => {
+                if sess[wi].is_none() {
+                    sess[wi] = Some(Sess::new(&all[wi]));
+                }
+                let mut extra = json!({"part": "single"});
+                if e.get("reuse").map(|r| r.is_boolean()).unwrap_or(false) {
+                    extra["reuse"] = e["reuse"].clone();
+                }
+                run_case(&mut tr, k + 1, &all[wi], sess[wi].as_mut().unwrap(), tok::mode_of(e["mode"].as_u64().unwrap_or(2) as usize), &e["recipe"], extra);
+            }
+            None => {
+                eprintln!("world {} is generated per seed; re-run c03-record with the recorded seed", name);
+                return 2;
+            }
         }
     }
     tr.finish();
